@@ -32,7 +32,19 @@ if sys.version_info < (3, 12):
         sys.stderr.write("extract_num.py: needs Python >= 3.12\n")
         sys.exit(2)
     env = dict(os.environ, PYENV_VERSION="3.12.1", _EXTRACT_NUM_REEXEC="1")
-    os.execvpe("python3", ["python3"] + sys.argv, env)
+    # a pyenv shim puts the selected version's bin first on PATH: resolve 3.12 by path when possible
+    exe = "python3"
+    for root in (os.environ.get("PYENV_ROOT"), os.path.expanduser("~/.pyenv"), "/root/.pyenv"):
+        cand = os.path.join(root, "versions", "3.12.1", "bin", "python3") if root else None
+        if cand and os.path.exists(cand):
+            exe = cand
+            break
+    else:
+        for root in (os.environ.get("PYENV_ROOT"), os.path.expanduser("~/.pyenv")):
+            if root and os.path.exists(os.path.join(root, "shims", "python3")):
+                exe = os.path.join(root, "shims", "python3")
+                break
+    os.execvpe(exe, [exe] + sys.argv, env)
 
 VERIF = os.path.dirname(os.path.dirname(os.path.abspath(__file__)))
 DEFAULT_NUM = "/repo/tm/num.py"
